@@ -44,7 +44,7 @@ case "${1:-all}" in
     coq_makefile_gen
     ( cd coq && timeout 3000 make -k -j16 ) || echo "WARNING: some Coq files failed to build"
     rc=0
-    for d in coq/C??; do P="$(basename "$d")"; build_model "$P" || rc=1; done
+    for d in coq/*/; do P="$(basename "$d")"; build_model "$P" || rc=1; done
     exit $rc ;;
   *) echo "usage: setup.sh all|coq-makefile|model Cnn"; exit 2 ;;
 esac
